@@ -7,6 +7,7 @@ package main
 import (
 	"bytes"
 	"fmt"
+	"io"
 	"strconv"
 	"strings"
 
@@ -107,6 +108,13 @@ func c03Wire(c *lib.Ctx, g *c3Gen) {
 	add(c3List(kw(":return"), c3List(kw(":ok"), c3List(kw(":pid"), c3I(4242), kw(":version"), c3Str("2.27"), kw(":features"), c3Nil())), c3I(1)))
 	add(c3List(kw(":return"), c3List(kw(":abort"), c3Str("error: \"x\" is not bound")), c3I(12)))
 	add(c3List(kw(":ping"), c3I(1), c3I(2)))
+	// characters of more than one byte outside strings: in a symbol, as a character object, in a keyword
+	// (the header counts bytes, the printed text has fewer characters)
+	for _, r := range []rune{0xe9, 0x3bb, 0x20ac, 0x1d122} {
+		add(c3List(kw(":return"), c3List(kw(":ok"), c3Chr(r)), c3I(3)))
+		add(c3List(kw(":return"), c3List(kw(":ok"), c3Sym("na"+string(r)+"ve")), c3I(4)))
+		add(c3List(kw(":presentation-start"), c3Sym(":k"+string(r)), c3Str(string(r)+string(r))))
+	}
 	// payload lengths around the header's digit boundaries (16^3, 16^4) and the 1 MiB cap
 	for _, target := range []int{4095, 4096, 4097, 65535, 65536, 65537, 1048575, 1048576} {
 		n := target - 19
@@ -183,4 +191,130 @@ func c03Wire(c *lib.Ctx, g *c3Gen) {
 	}
 	c.Ev.Coverage["wire_messages"] = len(cases)
 	c.Ev.Coverage["wire_roundtrips_ok"] = ok
+
+	// one connection: the messages written one after another and read back in order through a reader
+	// that hands out a few bytes per call (a socket); a header that is off by one byte loses the framing
+	// of everything that follows
+	var stream bytes.Buffer
+	var sent []*c3Obj
+	for _, wc := range cases {
+		mark := stream.Len()
+		var werr error
+		out := lib.Protect(func() slip.Object { werr = swank.WriteWireMessage(&stream, wc.obj.object()); return nil })
+		if !out.Ok || werr != nil {
+			stream.Truncate(mark) // reported above as a single message
+			continue
+		}
+		sent = append(sent, wc.obj)
+	}
+	rd := &c3ChunkReader{data: stream.Bytes()}
+	scope := slip.NewScope()
+	streamOK := 0
+	for k, o := range sent {
+		var y slip.Object
+		var rerr error
+		out := lib.Protect(func() slip.Object { y, rerr = swank.ReadWireMessage(rd, scope); return nil })
+		aspect, observed := "", ""
+		switch {
+		case !out.Ok:
+			aspect, observed = "read-condition:"+out.Class, out.Msg
+		case rerr != nil:
+			aspect, observed = "read-error", rerr.Error()
+		default:
+			if aspect = c3Compare(o.object(), y); aspect != "" {
+				observed = "read back: " + slip.ObjectString(y)
+			}
+		}
+		if aspect != "" {
+			prev := "(first message)"
+			if k > 0 {
+				prev = sent[k-1].term()
+			}
+			c.Report(c3Signature("composite kind=wire-stream", aspect), false, map[string]any{"term": o.term(), "wire": true, "previous": prev,
+				"input": fmt.Sprintf("message %d of %d written on one connection: %s (after %s)", k+1, len(sent), o.term(), prev), "observed": observed,
+				"expected": "every message of the stream is read back in order", "expected_from": "property statement (wire framing: header = byte length of the printed text)"})
+			break // the framing is lost from here on
+		}
+		streamOK++
+	}
+	if streamOK == len(sent) && rd.pos != len(rd.data) {
+		c.Report(c3Signature("composite kind=wire-stream", "bytes-left"), false, map[string]any{"wire": true, "term": "nil",
+			"input": "all messages of the run on one connection", "observed": fmt.Sprintf("%d bytes not consumed", len(rd.data)-rd.pos), "expected": "the reader consumes exactly what was written"})
+	}
+	c.Ev.Coverage["wire_stream_messages"] = len(sent)
+	c.Ev.Coverage["wire_stream_read_in_order"] = streamOK
+
+	// the global printer settings a session may have changed (setq *print-base* 16 …): within the grid
+	// documented to keep output readable the message still travels unchanged
+	nGlobal, okGlobal := 0, 0
+	for gi, cf := range c3WireGlobalGrid(!c.Thorough()) {
+		for ci, wc := range cases {
+			if !wc.sweep || len(wc.obj.term()) > 4000 || (ci+gi)%3 != 0 {
+				continue
+			}
+			nGlobal++
+			var aspect, payload, observed string
+			c3WithGlobal(func(g *slip.Printer) {
+				p := cf.printer()
+				g.Base, g.Radix, g.Case, g.Pretty, g.RightMargin, g.Array = p.Base, p.Radix, p.Case, p.Pretty, p.RightMargin, p.Array
+			}, func() { aspect, payload, observed = c3WireRoundtrip(wc.obj) })
+			if aspect == "" {
+				okGlobal++
+				continue
+			}
+			c.Report(c3Signature(wc.cell+" var=global-settings", aspect), true, map[string]any{"term": wc.obj.term(), "wire": true, "wire_global": cf.asMap(), "cell": wc.cell, "sweep": true,
+				"input": "swank wire message " + wc.obj.term() + " with the global printer set to " + cf.String(), "printed": payload, "observed": observed,
+				"expected": "ReadWireMessage gives back a message equal to the one written", "expected_from": "property statement (every readable setting of the printer control variables)"})
+		}
+	}
+	c.Ev.Coverage["wire_global_setting_roundtrips"] = nGlobal
+	c.Ev.Coverage["wire_global_setting_roundtrips_ok"] = okGlobal
+}
+
+// c3WireGlobalGrid: readable settings of the global printer (base marked by radix, or base 10).
+func c3WireGlobalGrid(quick bool) []c3Cfg {
+	var out []c3Cfg
+	bases := []int{10, 2, 16, 36}
+	margins := []int{1, 30, 200}
+	if !quick {
+		bases = []int{10, 2, 3, 8, 16, 24, 30, 36}
+		margins = []int{1, 7, 30, 72, 200}
+	}
+	for _, b := range bases {
+		for _, cs := range c3Cases {
+			for _, pretty := range []bool{false, true} {
+				for _, m := range margins {
+					if !pretty && m != margins[0] {
+						continue
+					}
+					out = append(out, c3Cfg{base: b, radix: b != 10 || cs == "u", cs: cs, pretty: pretty, margin: m, readably: true, array: true})
+				}
+			}
+		}
+	}
+	return out
+}
+
+// c3ChunkReader hands out 1..11 bytes per Read (a deterministic pattern), as a socket may.
+type c3ChunkReader struct {
+	data []byte
+	pos  int
+	n    int
+}
+
+func (r *c3ChunkReader) Read(b []byte) (int, error) {
+	if r.pos >= len(r.data) {
+		return 0, io.EOF
+	}
+	r.n++
+	k := (r.n*7+3)%11 + 1
+	if k > len(b) {
+		k = len(b)
+	}
+	if k > len(r.data)-r.pos {
+		k = len(r.data) - r.pos
+	}
+	copy(b, r.data[r.pos:r.pos+k])
+	r.pos += k
+	return k, nil
 }
